@@ -5,6 +5,7 @@ use crate::common::Outcome;
 use crate::props::attr::*;
 use crate::props::bufstep::*;
 use crate::props::cfgdiff::*;
+use crate::props::ctor::*;
 use crate::props::esc::*;
 use crate::props::ns::*;
 use crate::props::scan::*;
@@ -214,6 +215,18 @@ harnesses! {
     w8_doctype_n3, unwind = 6, raw = 4, |r| check_writer_table::<3>(r, 8);
     w8_eof_n3, unwind = 6, raw = 4, |r| check_writer_table::<3>(r, 9);
 
+    // ---- C09: constructor kernels
+    c9_cdata_split_n5, unwind = 8, raw = 6, |r| check_cdata_split::<5>(r);
+    c9_cdata_split_n6, unwind = 9, raw = 7, |r| check_cdata_split::<6>(r);
+    #[kani::stub(core::str::from_utf8, from_utf8_ascii)]
+    #[kani::stub(alloc::string::String::from_utf8, string_from_utf8_ascii)]
+    c9_push_attribute, unwind = 12, raw = 3, |r| check_push_attribute(r);
+    c9_set_name,       unwind = 10, raw = 5, |r| check_set_name(r);
+    c9_decl_new,       unwind = 16, raw = 4, |r| check_decl_new(r);
+    #[kani::stub(core::str::from_utf8, from_utf8_ascii)]
+    #[kani::stub(alloc::string::String::from_utf8, string_from_utf8_ascii)]
+    c9_text_new,       unwind = 12, raw = 1, |r| check_text_new(r);
+
     // ---- C10: escaping kernels
     x10_parse_number, unwind = 13, raw = 11, |r| check_parse_number(r);
     #[kani::stub(core::str::from_utf8, from_utf8_ascii)]
@@ -351,6 +364,19 @@ harnesses! {
     h2_bang_n3,  unwind = 6, raw = 5,  |r| check_helper::<3, 1, 0>(r, 3, C02, 33);
     h2_bang_n2,  unwind = 5, raw = 4,  |r| check_helper::<2, 1, 0>(r, 3, C02, 33);
     h18_bang_n2, unwind = 8, raw = 7,  |r| check_helper::<2, 1, 3>(r, 3, C02 | C18, 33);
+    h18_elem_n2, unwind = 8, raw = 7,  |r| check_helper::<2, 1, 3>(r, 1, C02 | C18, 0);
+    h18_pi_n2,   unwind = 8, raw = 7,  |r| check_helper::<2, 1, 3>(r, 2, C02 | C18, 0);
+    h18_text_n2, unwind = 8, raw = 7,  |r| check_helper::<2, 1, 3>(r, 0, C02 | C18, 0);
+    h18_elem_n3f2, unwind = 8, raw = 7, |r| check_helper::<3, 1, 2>(r, 1, C02 | C18, 0);
+    h18_pi_n3f2,   unwind = 8, raw = 7, |r| check_helper::<3, 1, 2>(r, 2, C02 | C18, 0);
+    h18_text_n3f2, unwind = 8, raw = 7, |r| check_helper::<3, 1, 2>(r, 0, C02 | C18, 0);
+    h2_elem_n3,  unwind = 6, raw = 5,  |r| check_helper::<3, 1, 0>(r, 1, C02, 0);
+    h2_pi_n3,    unwind = 6, raw = 5,  |r| check_helper::<3, 1, 0>(r, 2, C02, 0);
+    h2_text_n3,  unwind = 6, raw = 5,  |r| check_helper::<3, 1, 0>(r, 0, C02, 0);
+    k_bang_split_n7, unwind = 9, raw = 10, |r| check_bang_split::<7>(r);
+    #[kani::stub(core::str::from_utf8, from_utf8_ascii)]
+    #[kani::stub(alloc::string::String::from_utf8, string_from_utf8_ascii)]
+    x10_unescape_n2, unwind = 5, raw = 3, |r| check_unescape::<2>(r);
     h18_bang_n3, unwind = 9, raw = 8,  |r| check_helper::<3, 1, 3>(r, 3, C02 | C18, 33);
     h2_skipws_n4,  unwind = 7, raw = 6,  |r| check_helper::<4, 1, 0>(r, 4, C02, 0);
     h18_skipws_n3, unwind = 9, raw = 8,  |r| check_helper::<3, 1, 3>(r, 4, C02 | C18, 0);
